@@ -157,6 +157,11 @@ theorem isl_dim_cases (bits : Nat) (y m : Int) (h1 : 1 ≤ m) (h2 : m ≤ 12) :
 theorem isl_wf (bits : Nat) (epoch : Int) (hT : islT bits 30 = 10631)
     (he : -1000000 < epoch ∧ epoch < 1000000) : WF (Isl.cal bits epoch) where
   dom_lo := by show -bigDom ≤ (1 : Int); decide
+  search_lo := by show -bigDom ≤ (1 : Int) ∧ (1 : Int) ≤ 1; decide
+  recur_lo := fun y h1 h2 => by
+    have a : (1 : Int) ≤ y := h1
+    have b : y < (1 : Int) := h2
+    omega
   dom_hi := by show (9665 : Int) + 1 ≤ bigDom; decide
   year_order := by show (1 : Int) ≤ 9665; decide
   recur := fun y hy _ => isl_recur bits epoch hT y hy
@@ -266,7 +271,7 @@ theorem isl_wf (bits : Nat) (epoch : Int) (hT : islT bits 30 = 10631)
     · split at this <;> omega
     · split at this <;> omega
   month_key_inj := fun _ _ _ _ _ _ _ _ _ h => h
-  plain_key := fun _ _ _ => rfl
+  plain_key := fun _ _ _ _ _ _ _ => rfl
 
 theorem islT_base15 : islT Isl.bitsBase15 30 = 10631 := by decide +kernel
 theorem islT_base16 : islT Isl.bitsBase16 30 = 10631 := by decide +kernel
